@@ -2,10 +2,11 @@
    it was recorded from; the formats are documented in the Spec*.v files:
      1  dial limiter            (SpecLimiter.v)
      2  dial worker loop        (SpecWorker.v)
+     3  dialSync                (SpecSync.v)
      4  DefaultDialRanker       (SpecRanker.v)
    No proofs here. *)
 From Coq Require Import List ZArith Bool.
-From Verif Require Import lib.Wire c05.SpecLimiter c05.SpecWorker c05.SpecRanker.
+From Verif Require Import lib.Wire c05.SpecLimiter c05.SpecWorker c05.SpecRanker c05.SpecSync.
 Import ListNotations.
 Local Open Scope Z_scope.
 
@@ -13,6 +14,7 @@ Definition conform_case (l : list Z) : list Z :=
   match l with
   | 1 :: r => conform_lim_case r
   | 2 :: r => conform_w_case r
+  | 3 :: r => conform_s_case r
   | 4 :: r => conform_r_case r
   | _ => [ERR_MALFORMED; 0]
   end.
@@ -21,6 +23,7 @@ Definition monitor_case (l : list Z) : list Z :=
   match l with
   | 1 :: r => monitor_lim_case r
   | 2 :: r => monitor_w_case r
+  | 3 :: r => monitor_s_case r
   | 4 :: r => monitor_r_case r
   | _ => [ERR_MALFORMED; 0]
   end.
